@@ -269,3 +269,48 @@ func VerifHarness_C05_Spacing() {
 	verifReach("searched")
 	verifReach("done")
 }
+
+// several cached answers, then a replacement: none of them survives
+func VerifHarness_C05_ManyThenReplace() {
+	mdb := NewMonitoredDatabase(c04DB(false))
+	o := SearchOptions{Limit: 3, AllPlatforms: true}
+	qs := []string{"aa", "bb", "aa cc", "git"}
+	n := verifIntRange("cached", 2, 4)
+	for k := 0; k < n; k++ {
+		c05Compare(mdb.Database, mdb.SearchWithOptionsAndCache(qs[k], o), qs[k], o, "before")
+	}
+	switch verifIntRange("change", 0, 2) {
+	case 0:
+		mdb.UpdateDatabase(c01DB(3).Commands)
+	case 1:
+		_ = mdb.LoadDatabaseWithMonitoring(c01DB(3).Commands)
+	case 2:
+		mdb.InvalidateCache()
+		mdb.Database.Commands = c01DB(3).Commands
+		mdb.Database.BuildUniversalIndex()
+	}
+	k := verifIntRange("again", 0, n-1)
+	c05Compare(mdb.Database, mdb.SearchWithOptionsAndCache(qs[k], o), qs[k], o, "after the replacement (one of several cached requests)")
+	verifReach("searched")
+	verifReach("done")
+}
+
+// option values edited in place between two requests (the same map / slice object)
+func VerifHarness_C05_EditedOptions() {
+	cdb := NewCachedDatabase(c04DB(false))
+	boosts := map[string]float64{"aa": 1.5}
+	plats := []string{"windows"}
+	o := SearchOptions{Limit: 5, ContextBoosts: boosts, Platforms: plats}
+	c05Compare(cdb.Database, cdb.SearchWithOptionsAndCache("aa", o), "aa", o, "first request")
+	switch verifIntRange("edit", 0, 2) {
+	case 0:
+		boosts["aa"] = 3
+	case 1:
+		boosts["cc"] = 2
+	case 2:
+		plats[0] = "macos"
+	}
+	c05Compare(cdb.Database, cdb.SearchWithOptionsAndCache("aa", o), "aa", o, "second request after editing the option values in place")
+	verifReach("searched")
+	verifReach("done")
+}
